@@ -308,6 +308,19 @@ def run_custom(ctx: Ctx, specials: list, seeded: list):
         if p[2] or p[3]:                       # a pattern with no digit token displays no number
             check_custom(ctx, text, held, fld, api_inp(x, p), api=p[:4])
 
+    # --- a format added after a formatted value has been read must be usable (the custom format map is memoised) --------
+    seq = CustomImpl()
+    cf1, _ = seq.api_format("NONE", "NONE", 1, 0, False)
+    seq.show(1.5, cf1)
+    cf2, _ = seq.api_format("ZEROS", "ZEROS", 2, 2, False)
+    text, o, _held = seq.show(1.5, cf2)
+    ctx.count("custom: a format added after formatted_value was read", 1, exhaustive=True)
+    if text is None:
+        ctx.violation("custom-format-added-after-read", f"add_custom_format; formatted_value; add_custom_format(ZEROS, ZEROS, 2, 2); "
+                      f"formatted_value of 1.5 -> {text!r} ({o})",
+                      {"value": "1.5", "format": "custom", "integer_format": "ZEROS", "decimal_format": "ZEROS", "num_integers": 2,
+                       "num_decimals": 2, "show_thousands_separator": False})
+
     # --- the archive builder: every (integer_format, decimal_format, num_integers 0..10, num_decimals 0..10, separator) ------
     req, out = [], []
     probe = [0, 0.23, -0.23, 0.995, 23.0, -2345.67, 1234567.891, 0.0004, -999999.5, 5e-05]
@@ -339,7 +352,7 @@ def run_custom(ctx: Ctx, specials: list, seeded: list):
     req, out = [], []
     for p in REPRESENTATIVE:
         cf, fld = impl.api_format(*p)
-        for x in specials + seeded[:150]:
+        for x in (specials[::2] + seeded[:60]) if ctx.quick else (specials + seeded[:600]):
             one_api(req, out, p, cf, fld, x)
     ctx.correspond(f"custom: {len(REPRESENTATIVE)} API patterns x all special values + seeded values", req, out)
 
@@ -357,7 +370,7 @@ def run_custom(ctx: Ctx, specials: list, seeded: list):
     for src, f0 in fixtures + handmade:
         cf, fld = impl.archive_format(f0)
         fld["scale_factor"] = f0["scale_factor"]
-        for x in fvals + [rng.choice(specials) for _ in range(8 if ctx.quick else 60)]:
+        for x in fvals + [rng.choice(specials) for _ in range(4 if ctx.quick else 60)]:
             text, o, held = impl.show(x, cf)
             req.append(request(fld, held))
             out.append(o)
@@ -586,23 +599,35 @@ def run_text_and_dispatch(ctx: Ctx):
 
 
 def replay_custom(i: dict):
-    """re-run one stored custom-format input against the real code."""
+    """re-run one stored custom-format input against the real code: on a fresh document, and (as in the check) on a document
+    that has already displayed another custom-formatted cell when the format under test is added."""
     from numbers_parser import Document  # noqa: F401
     x = eval(i["value"], {"__builtins__": {}}, {})  # repr of an int/float produced by this module
-    impl = CustomImpl()
-    if i["format"] == "custom":
-        p = (i["integer_format"], i["decimal_format"], i["num_integers"], i["num_decimals"], i["show_thousands_separator"])
-        try:
-            cf, fld = impl.api_format(*p)
-        except Exception as e:  # noqa: BLE001
-            return {"add_custom_format": list(p), "raised": exc_name(e)}
-        desc = {"add_custom_format": dict(zip(("integer_format", "decimal_format", "num_integers", "num_decimals",
-                                                "show_thousands_separator"), p))}
-    else:
-        a = dict(i["archive"])
-        a["scale_is_one"] = a["scale_factor"] == 1.0
-        cf, fld = impl.archive_format(a)
-        desc = {"archive": i["archive"], "source": i.get("source")}
-    text, o, held = impl.show(x, cf)
-    return {"write": repr(x), "cell.value": repr(held), **desc, "custom_format_string": fld["custom_format_string"],
-            "formatted_value": text if text is not None else o}
+
+    def once(prelude: bool):
+        impl = CustomImpl()
+        first = None
+        if prelude:
+            cf0, _ = impl.api_format("NONE", "NONE", 1, 0, False)
+            first = impl.show(1.5, cf0)[0]
+        if i["format"] == "custom":
+            p = (i["integer_format"], i["decimal_format"], i["num_integers"], i["num_decimals"], i["show_thousands_separator"])
+            try:
+                cf, fld = impl.api_format(*p)
+            except Exception as e:  # noqa: BLE001
+                return {"add_custom_format raised": exc_name(e)}, first
+        else:
+            a = dict(i["archive"])
+            a["scale_is_one"] = a["scale_factor"] == 1.0
+            cf, fld = impl.archive_format(a)
+        text, o, held = impl.show(x, cf)
+        return {"cell.value": repr(held), "custom_format_string": fld["custom_format_string"],
+                "formatted_value": text if text is not None else o}, first
+
+    fresh, _ = once(False)
+    later, first = once(True)
+    desc = ({"add_custom_format": {k: i[k] for k in ("integer_format", "decimal_format", "num_integers", "num_decimals",
+                                                      "show_thousands_separator")}} if i["format"] == "custom"
+            else {"archive": i["archive"], "source": i.get("source")})
+    return {"write": repr(x), **desc, "on a fresh document": fresh,
+            "after add_custom_format(num_integers=1) + write 1.5 + formatted_value (-> %r) on the same document" % first: later}
